@@ -105,6 +105,16 @@ def fam_required():
     ww = StructDef('RqNestW', [Field(1, 'default', ('list', ('struct', wi, True))), Field(2, 'default', ('map', S('i8'), ('struct', wi, True))), Field(3, 'optional', ('struct', wi, True))])
     tt = StructDef('RqNestT', [Field(1, 'default', ('list', ('struct', ti, True))), Field(2, 'default', ('map', S('i8'), ('struct', ti, False))), Field(3, 'optional', ('struct', ti, True))])
     out.append(pair(ww, tt, 2, reach=['end', 'ok', 'missing']))
+    # an outer struct lacking a required field while a nested struct (with required fields of its own) carries the same id
+    for n, mk in enumerate([lambda w, t: (('struct', w, True), ('struct', t, True)),
+                            lambda w, t: (('list', ('struct', w, True)), ('list', ('struct', t, False))),
+                            lambda w, t: (('map', S('i8'), ('struct', w, True)), ('map', S('i8'), ('struct', t, True)))]):
+        iw = StructDef('RqShIW%d' % n, [Field(1, 'optional', S('i8'), ptr=True), Field(2, 'optional', S('string'), ptr=True)])
+        it = StructDef('RqShIT%d' % n, [Field(1, 'required', S('i8')), Field(2, 'required', S('string'))])
+        tw, tt = mk(iw, it)
+        ow_ = StructDef('RqShW%d' % n, [Field(1, 'optional', S('i8'), ptr=True), Field(2, 'optional', S('string'), ptr=True, name='Name'), Field(5, 'default', tw)])
+        ot_ = StructDef('RqShT%d' % n, [Field(1, 'required', S('i8')), Field(2, 'required', S('string'), name='Name'), Field(5, 'default', tt)])
+        out.append(pair(ow_, ot_, 3, reach=['end', 'ok', 'missing']))
     wr = StructDef('RqTypeW', [Field(1, 'optional', S('i64'), ptr=True), Field(2, 'default', S('i8'))])
     tr = StructDef('RqTypeT', [Field(1, 'required', S('i32')), Field(2, 'default', S('i8'))])
     out.append(pair(wr, tr, 2, reach=['end', 'missing']))
@@ -227,8 +237,14 @@ def fam_twin():
         ('TwC4', ('set', ('list', ('list', i8)))),
         ('TwD1', ('map', i32, ('map', i32, ('set', S('string'))))), ('TwD2', ('map', i32, ('map', i32, ('list', S('string'))))),
     ]
+    # the same named int64 Go type declared as an enum in one struct and as a plain i64 in another (annotated or not)
+    en, pl = S('enum'), S('i64n')
+    defs += [('TwE1', en), ('TwE2', pl), ('TwE3', ('list', en)), ('TwE4', ('list', pl)), ('TwE5', ('map', en, pl)), ('TwE6', ('map', pl, en)),
+             ('TwE7', ('map', S('string'), ('set', pl)))]
     sm = {'codec': [{'S': 1, 'L': 1, 'M': 1, 'D': 1}]}
-    return [{'sd': StructDef(n, [Field(1, 'default', t)]), 'kinds': ['codec'], 'params': sm} for n, t in defs]
+    out = [{'sd': StructDef(n, [Field(1, 'default', t)]), 'kinds': ['codec'], 'params': sm} for n, t in defs]
+    out.append({'sd': StructDef('TwE8', [Field(1, 'default', pl, spelling={'omit_scalar_annot': True}), Field(2, 'optional', en)]), 'kinds': ['codec'], 'params': sm})
+    return out
 
 def fam_mutmsg(full=False):
     i64, i32, i8, st = S('i64'), S('i32'), S('i8'), S('string')
